@@ -9,7 +9,16 @@ type unionInstanceStrategy struct{}
 func (u *unionInstanceStrategy) evaluate(m *MethodEvaluator) error {
 	classNames, methodTs, err := u.getRequiredValues(m)
 	if err != nil {
+		// the call is reported on the line it starts on, not where the skipped
+		// argument list or block ends
+		errorRow := m.parser.ErrorRow
+
 		m.errorResolve()
+
+		if m.ctx.IsCheckRound() {
+			m.parser.ErrorRow = errorRow
+		}
+
 		return err
 	}
 
